@@ -20,6 +20,7 @@ LEVEL_TEXT = ("Every action sequence up to length 3 over a 13-letter alphabet x 
 LEVEL_NOTE = ("trusts the subscription model + reboot-detector model in this module and pv/refwire.py for decoding acknowledgements; "
               "the listener's accept/reject policy per subscription identity is scripted and may change during a history (a Subscribe at the "
               "exact deadline of a live subscription whose identity is currently rejected is not generated: it has two legitimate outcomes)")
+TIEBREAK_VARIANTS = True  # thorough tier: some shards run equal-deadline timers LIFO / in seeded random order
 RULE = (
     "alphabet: Subscribe ttl1 / ttl-inf, StopSubscribe, Subscribe for a second eventgroup, Subscribe the listener rejects, "
     "reboot+Subscribe, reboot only, service stop, service start, connection loss, Subscribe from a second subscriber, "
